@@ -19,13 +19,14 @@ def schedules(tier, seed):
     """Collection schedules (hook H1 syntax).  'every=1,skip=K,max=M' forces a collection before every single
     allocation of a window; every=n,phase=j covers every allocation index with n runs (thorough)."""
     rnd = __import__("random").Random(seed)
-    s = ["every=1,skip=%d,max=2500" % rnd.randrange(0, 6000), "every=1,skip=%d,max=2500" % rnd.randrange(6000, 30000),
-         "every=5,phase=%d" % (seed % 5), "every=11,phase=%d" % (seed % 11),
-         "seed=%d,p=6" % seed, "every=64,phase=%d" % (seed % 64),
-         # a collection at each of the allocations that follow a large allocation (stack / vector / string / table growth)
+    # quick: the two phases of every=2 together put a collection before EVERY allocation of every program (a value that is
+    # unrooted across one particular allocation is found whatever that allocation is), a seeded sparse schedule gives the
+    # same points a different heap history, and the afterbig schedules collect right after stack / vector / table growth
+    s = ["every=2,phase=0", "every=2,phase=1", "seed=%d,p=6" % seed,
          "afterbig=4,bigsize=2048", "afterbig=12,bigsize=512"]
     if tier == "thorough":
-        s += ["every=1", "every=2", "every=2,phase=1"]
+        s += ["every=1", "every=5,phase=%d" % (seed % 5), "every=11,phase=%d" % (seed % 11), "every=64,phase=%d" % (seed % 64),
+              "every=1,skip=%d,max=2500" % rnd.randrange(0, 6000)]
         s += ["every=3,phase=%d" % ((seed + 1) % 3), "every=3,phase=%d" % ((seed + 2) % 3)]
         s += ["every=7,phase=%d" % j for j in range(7) if j != seed % 7]
         s += ["seed=%d,p=%d" % (seed + j, p) for j in range(1, 4) for p in (2, 11, 101)]
